@@ -22,6 +22,7 @@ import threading
 import numpy as np
 
 from vf import gen as G
+from vf import lib_potopts as P
 
 PROPERTY = "C11"
 TECHNIQUE = ("runtime monitoring; history monitor with a freshly constructed Potential as sequential model + wrapper monitor "
@@ -29,11 +30,13 @@ TECHNIQUE = ("runtime monitoring; history monitor with a freshly constructed Pot
 RULE = ("histories of 2-6 operations (build eager/lazy, set gpts, set sampling, multislice use, project, partial slice "
         "generation) on one Potential: cells 3-6 A with 1-5 atoms of 1-3 elements (elements may first occur in a later slice), "
         "infinite and finite projection, lobato/kirkland/peng, grids 8-64 given initially as gpts or sampling, single atoms or "
-        "frozen phonons; plus two potentials sharing one integrator; non-trivial = at least one result is produced after a "
+        "frozen phonons; about half of the cases with parametrization objects carrying sigmas and / or custom Quadrature / "
+        "ScatteringFactor integrators (non-default cutoff_tolerance, taper, integration_step, quad_order, "
+        "inner_cutoff_factor); plus two potentials sharing one integrator; non-trivial = at least one result is produced after a "
         "grid change that followed an earlier use of the object; distinct = distinct case signature")
 CLAUSES = ["rebuild-equals-fresh", "grid-follows-assignment", "cache-use-matches-fill-infinite", "cache-use-matches-fill-finite",
            "multislice-equals-fresh", "shared-integrator"]
-QUICK = dict(n=56, time=45)
+QUICK = dict(n=46, time=45)
 THOROUGH = dict(n=2400, time=400, shards=16)
 
 
@@ -97,7 +100,10 @@ def gen(rng, tier):
             "positions": (rng.random((n, 3)) * np.array(cell)).tolist()}
     first = "gpts" if rng.random() < 0.6 else "sampling"
     common = {"cell": desc, "projection": proj, "parametrization": str(rng.choice(["lobato", "kirkland", "peng"])),
-              "slice_thickness": float(rng.uniform(0.5, 2.0)), "precision": "float64" if rng.random() < 0.8 else "float32"}
+              "slice_thickness": float(rng.uniform(0.5, 2.0)), "precision": "float64" if rng.random() < 0.8 else "float32",
+              "opts": P.gen(rng, proj, desc["symbols"], allow=("sigmas", "integrator"), cheap=True)}
+    if P.single_precision(common["opts"]):
+        common["opts"] = {}        # the Gaussian integrator keeps no grid-dependent cache
     if rng.random() < 0.12:
         scale = [float(rng.uniform(1.1, 1.6)), float(rng.uniform(0.6, 0.9))]
         return dict(common, kind="shared", gpts=G.rand_gpts(rng, 8, 40), scale=scale, rounds=int(rng.integers(2, 4)),
@@ -118,6 +124,15 @@ def fixed_cases(tier):
         # only the first slice (Si) is generated before the change: the other elements are cached afterwards
         out.append(dict(base, ops=[{"op": "slices", "first": 0, "count": 1}, {"op": "gpts", "value": [20, 16]},
                                    {"op": "multislice", "energy": 100e3}, {"op": "build", "lazy": False}]))
+        sig = {"Si": 0.3, "O": 0.15}
+        custom = ({"type": "quadrature", "cutoff_tolerance": 1e-3, "taper": 0.7, "integration_step": 0.05, "quad_order": 4,
+                   "inner_cutoff_factor": 3.0} if proj == "finite" else {"type": "scattering"})
+        out.append(dict(base, opts={"sigmas": sig, "integrator": custom},
+                        ops=[{"op": "build", "lazy": True}, {"op": "sampling", "value": [0.21, 0.17]},
+                             {"op": "multislice", "energy": 100e3}, {"op": "gpts", "value": 18}, {"op": "build", "lazy": False}]))
+        out.append({"kind": "shared", "cell": cell, "projection": proj, "parametrization": "kirkland", "slice_thickness": 1.0,
+                    "precision": "float64", "gpts": [16, 20], "scale": [1.3, 0.7], "rounds": 2, "repeat": None,
+                    "opts": {"sigmas": sig, "integrator": custom}})
         for repeat in (None, [1, 2]):
             out.append({"kind": "shared", "cell": cell, "projection": proj, "parametrization": "lobato", "slice_thickness": 1.0,
                         "precision": "float64", "gpts": [16, 20], "scale": [1.5, 0.8], "rounds": 2, "repeat": repeat})
@@ -229,7 +244,9 @@ def _new(case, atoms=None, integrator=None, **grid):
     if integrator is not None:
         kw["integrator"] = integrator
     else:
-        kw.update(projection=case["projection"], parametrization=case["parametrization"])
+        # case["opts"]: non-default constructor arguments (parametrization object with sigmas, custom integrator);
+        # every call creates new parametrization / integrator objects
+        kw.update(P.kwargs(case.get("opts"), case["projection"], case["parametrization"]))
     return abtem.Potential(_atoms_arg(case) if atoms is None else atoms, **kw)
 
 
@@ -338,7 +355,9 @@ def check_shared(ctx, case, mon):
     """Two potentials with different cells and the same gpts share one integrator object."""
     from abtem.integrals import QuadratureProjectionIntegrals, ScatteringFactorProjectionIntegrals
     cls = QuadratureProjectionIntegrals if case["projection"] == "finite" else ScatteringFactorProjectionIntegrals
-    integrator = cls(parametrization=case["parametrization"])
+    integrator = P.integrator(case.get("opts"), case["projection"], case["parametrization"])
+    if integrator is None:
+        integrator = cls(parametrization=P.parametrization(case["parametrization"], (case.get("opts") or {}).get("sigmas")))
     a1 = G.atoms_from(case["cell"])
     gpts = tuple(case["gpts"])
     if case.get("repeat"):
